@@ -448,7 +448,8 @@ func (b *Buffer) mergeClusters(start, end int) {
 
 	// Extend start
 	if cluster != b.Info[start].Cluster {
-		for b.idx < start && b.Info[start-1].Cluster == b.Info[start].Cluster {
+		// (idx is -1 after a reverse lookup; Harfbuzz uses an unsigned cursor, so that nothing happens in this case)
+		for b.idx >= 0 && b.idx < start && b.Info[start-1].Cluster == b.Info[start].Cluster {
 			start--
 		}
 	}
